@@ -233,8 +233,8 @@ def run (s : Sys F) : List Ev → Sys F × List Out
   | [] => (s, [])
   | ev :: evs => ((run (step s ev).1 evs).1, (step s ev).2 :: (run (step s ev).1 evs).2)
 
-/-- Over runs that keep the link set.  Runs WITH reloads: `Lemmas/ReloadShell.lean` (`Inv.run_reload`, under the
-hypothesis that the drawn conn ids are new). -/
+/-- Over runs that keep the link set.  Runs WITH reloads: `Props/SysReload.lean` (`Inv_run_reload`, under the
+hypothesis `FreshRun` that the drawn conn ids are new). -/
 theorem Inv.run {s : Sys F} (h : Inv s) (evs : List Ev) (hnr : NoReload evs) : Inv (run s evs).1 := by
   induction evs generalizing s with
   | nil => exact h
